@@ -104,6 +104,8 @@ type Op struct {
 	GarbageFilter bool `json:"garbageFilter,omitempty"`
 	GarbageCond   bool `json:"garbageCond,omitempty"`
 	GarbageUpdate bool `json:"garbageUpdate,omitempty"`
+	// an UpdateTable whose attribute definitions give a key attribute in use another type: must be rejected
+	Retype bool `json:"retype,omitempty"`
 	FilterTree *Cond `json:"filterTree,omitempty"`
 
 	// not on the wire: placeholders as Go maps
